@@ -6,25 +6,25 @@ claimed["C03"] = dict(
 )
 claimed["C04"] = dict(
     category="model_checking",
-    technique="explicit-state BFS over (index, worktree) states x every add/rm argument list of length 1-2 (files, directories, deleted-but-tracked, unknown, repeated), each transition compared with a map reference model; plus a name sweep: every realizable subset (size <= 2/3) of a 22-name pool of sharp names (siblings around '/', names extending a directory name, spaces, '%', regexp metacharacters, non-ASCII, a 300-byte path, an empty file) x every path and directory prefix as rm / add argument; file<->directory type changes and un-normalised spellings in the alphabet",
+    technique="explicit-state BFS over (index, worktree) states x every add/rm argument list of length 1-2 (files, directories, deleted-but-tracked, unknown, repeated), each transition compared with a map reference model; plus a name sweep: every realizable subset (size <= 2/3) of a 22-name pool of sharp names (siblings around '/', names extending a directory name, spaces, '%', regexp metacharacters, non-ASCII, a 300-byte path, an empty file) x every path and directory prefix as rm / add argument; file<->directory type changes and un-normalised spellings in the alphabet; type changes inside a named directory, same-length 64 KiB edits, a leftover blob temp file, two-directory argument pairs",
     text="For every state reachable within the depth bound and every argument list of the alphabet, the post-state's index (decoded independently) and worktree bytes equal what the reference model allows: named files staged with the blob id of their bytes and the blob stored, tracked-but-missing paths unstaged, rm removing exactly tracked paths beneath the argument, untracked files untouched, unknown arguments refused atomically, re-adding unchanged files a no-op.",
     note="Trusted: gitfmt decoders and engine/model.go (relation; exit status left open where the statement is silent, e.g. overlapping arguments). Invocation from the repository root only.",
 )
 claimed["C02"] = dict(
     category="model_checking",
-    technique="exhaustive name-set sweep (all realizable subsets up to size k of an 18-path universe ordered around '/') plus explicit-state BFS over edit/add/rm/restore/reset/branch/switch histories; every applied commit judged against independently decoded objects",
+    technique="exhaustive name-set sweep (all realizable subsets up to size k of an 18-path universe ordered around '/') plus explicit-state BFS over edit/add/rm/restore/reset/branch/switch histories; every applied commit judged against independently decoded objects; every sweep case takes a second snapshot after one removal and one edit; one directory of 900 files (tree > 32 KiB), names of 250/255 bytes, identical sub-directories",
     text="For every enumerated name set and every history within the depth bound, each successful commit advanced exactly the current branch to a commit whose flattened snapshot equals the staged entries at that moment, whose only parent is the previous tip, with the configured identity and the given message; HEAD, other branches, the staging area and the working tree were unchanged; a commit of a staged difference always succeeded.",
     note="Trusted: gitfmt. Fixed clock means two identical commits coincide; the oracle accepts a pre-existing identical commit object. Tree ids are not predicted (Goit spells the directory mode 040000); snapshots are compared after flattening.",
 )
 claimed["C07"] = dict(
     category="model_checking",
-    technique="explicit-state BFS over (HEAD snapshot, staging area) pairs with sharp sibling names (test/, test.c, test-data, test0); status probed in every state with a commit and compared with the exact set difference; every commit transition judged for refuse-iff-equal; plus a name sweep over every realizable subset (size <= 3/4) of the 22-name pool with status probed after every command",
+    technique="explicit-state BFS over (HEAD snapshot, staging area) pairs with sharp sibling names (test/, test.c, test-data, test0); status probed in every state with a commit and compared with the exact set difference; every commit transition judged for refuse-iff-equal; plus a name sweep over every realizable subset (size <= 3/4) of the 22-name pool with status probed after every command; one case with a 900-file directory",
     text="In every state reachable within the depth bound, the parsed 'Changes to be committed' section equals {new: I\\T, deleted: T\\I, modified: differing ids} computed from independently decoded index and HEAD tree (absent when equal); a commit with I = T is refused and creates no object and moves no branch; a commit with I != T succeeds.",
     note="Trusted: gitfmt, the status section parser (structure only: section header and the 13-column kind field). Unborn repositories have no HEAD snapshot and are not probed here (C18/C13 own them).",
 )
 claimed["C05"] = dict(
     category="model_checking",
-    technique="exhaustive name-set sweep (all realizable path sets up to size k over a 21-path universe with spaces, '-', '.', '+', '(', non-ASCII, depth 4), blob and sub-tree ids with 0x00/0x20/0x0a at each of the 20 positions, empty snapshot, plus a history BFS; after every commit Goit's read-back (reset --mixed + ls-files -s, cat-file -p of every tree) is compared with an independent tree decoder; in-module harness h05: trees whose entry ids carry every byte value at every one of the 20 positions and names over the component alphabet, decoded by NewTree",
+    technique="exhaustive name-set sweep (all realizable path sets up to size k over a 21-path universe with spaces, '-', '.', '+', '(', non-ASCII, depth 4), blob and sub-tree ids with 0x00/0x20/0x0a at each of the 20 positions, empty snapshot, plus a history BFS; after every commit Goit's read-back (reset --mixed + ls-files -s, cat-file -p of every tree) is compared with an independent tree decoder; in-module harness h05: trees whose entry ids carry every byte value at every one of the 20 positions and names over the component alphabet, decoded by NewTree; directories of 150 and 900 entries (tree data > 4 KiB / > 32 KiB), entry names of 250/255 bytes, identical sub-trees",
     text="For every enumerated commit, reset --mixed to it leaves a staging area equal to the independently flattened snapshot, ls-files -s prints it, and cat-file -p of the root and every sub-tree lists exactly the direct children with kind, id and complete name.",
     note="Trusted: gitfmt tree/commit/index decoders. Name sets above the size bound and names outside the universe are not covered.",
 )
@@ -36,85 +36,85 @@ claimed["C09"] = dict(
 )
 claimed["C13"] = dict(
     category="model_checking",
-    technique="explicit-state BFS over worktree edits (add, same-length edit, delete, remove directory, nested create) x index states x .goitignore present/absent; status probed in every state (also after changing every file's timestamp) and compared with set expressions over independently decoded index and worktree bytes; plus a name sweep over every realizable subset (size <= 3/4) of the 22-name pool (edit, delete, untracked siblings, removed directory)",
+    technique="explicit-state BFS over worktree edits (add, same-length edit, delete, remove directory, nested create) x index states x .goitignore present/absent; status probed in every state (also after changing every file's timestamp) and compared with set expressions over independently decoded index and worktree bytes; plus a name sweep over every realizable subset (size <= 3/4) of the 22-name pool (edit, delete, untracked siblings, removed directory); an untracked case variant of a tracked name in every sweep case; ignored files followed by later siblings; 200 / 900 tracked files",
     text="In every reachable state within the depth bound, the parsed 'Changes not staged for commit' and 'Untracked files' sections equal exactly {modified: tracked with different blob id, deleted: tracked and missing, untracked: on disk, not tracked, not ignored, outside .goit}; the report is identical after every timestamp was changed; unborn repositories included.",
     note="Trusted: gitfmt, the status parser. Ignore matching is judged only where the statement is unambiguous (top-level name/ entries, *.ext); other paths are left open.",
 )
 claimed["C17"] = dict(
     category="model_checking",
-    technique="explicit-state BFS over worktrees x four .goitignore contents x every add argument form ('.', './', parent directory, 'sub/..', the ignored path itself, .goit, .goit/HEAD, look-alike names my.goit/ goit/ a.logx), repeated after .goit has grown; reference model for add, invariant on every state, byte snapshot of .goit around reset --hard / restore",
+    technique="explicit-state BFS over worktrees x four .goitignore contents x every add argument form ('.', './', parent directory, 'sub/..', the ignored path itself, .goit, .goit/HEAD, look-alike names my.goit/ goit/ a.logx), repeated after .goit has grown; reference model for add, invariant on every state, byte snapshot of .goit around reset --hard / restore; after every successful `add .` status must list nothing untracked (add and status agree on what is excluded); ignore files without a final line terminator and a nested directory entry longer than 255 bytes",
     text="In every reachable state no staged path lies inside .goit; every add leaves exactly the model's staging area (ignored and metadata paths never staged, nothing else skipped; with no ignore file every file outside .goit is staged by 'add .'); status hides exactly ignored and metadata paths; reset --hard and restore change nothing inside .goit except index, current branch and logs.",
     note="Trusted: gitfmt, engine/model.go ignore rules (unambiguous cases only).",
 )
 claimed["C10"] = dict(
     category="model_checking",
-    technique="explicit state space of the branch/HEAD machine: BFS over branch create/delete/rename, switch, switch -c, update-ref, commit, reset with prefix-related names (a, ab, a-b, a.b, b, main); every transition compared with a map model, branch --list and rev-parse probed in every state; in-module harness h10: DFS (depth 3/4) over add/delete/rename/update/switch on ONE live Refs+Head instance with names incl. upper/lower-case pairs and a.lock, IsBranchExist for every name and the refs directory after every call",
+    technique="explicit state space of the branch/HEAD machine: BFS over branch create/delete/rename, switch, switch -c, update-ref, commit, reset with prefix-related names (a, ab, a-b, a.b, b, main); every transition compared with a map model, branch --list and rev-parse probed in every state; in-module harness h10: DFS (depth 3/4) over add/delete/rename/update/switch on ONE live Refs+Head instance with names incl. upper/lower-case pairs and a.lock, IsBranchExist for every name and the refs directory after every call; branch names of 100..255 bytes and leftover HEAD.tmp / branch.tmp / index.tmp files as input enumerations",
     text="For every reachable state within the depth bound: each operation changed exactly the branch map entry and HEAD name the model prescribes (update-ref never moves HEAD; nested or unknown refs, non-commit ids, duplicates, the current branch for -d are refused), a refused operation left the complete disk state unchanged, branch --list printed exactly the sorted stored names with the marker on HEAD's branch and rev-parse printed exactly the stored ids.",
     note="Trusted: gitfmt, engine/model.go. Nothing is explored beyond the depth bound (no random walks: different family).",
 )
 claimed["C11"] = dict(
     category="model_checking",
-    technique="explicit-state BFS over commit (9 message shapes: ': ', tab, several lines, 3-word continuation, edge blanks, non-ASCII) / switch / switch -c / reset / branch rename / delete histories incl. a 12-entry journal; reflog probed before and after every transition (differential append-only check) and reset --soft HEAD@{n} probed for every n in every state; the whole exploration is repeated under a generated negative non-whole-hour time zone",
+    technique="explicit-state BFS over commit (9 message shapes: ': ', tab, several lines, 3-word continuation, edge blanks, non-ASCII) / switch / switch -c / reset / branch rename / delete histories incl. a 12-entry journal; reflog probed before and after every transition (differential append-only check) and reset --soft HEAD@{n} probed for every n in every state; the whole exploration is repeated under a generated negative non-whole-hour time zone; journals of 140 (thorough: 260) entries with positions around 128 and 256; a subject whose tail is shaped like a journal line",
     text="For every reachable state: reflog exits 0 and lists one well-formed entry per position; across every transition the earlier entries reappear unchanged and in order, shifted by the number of new entries; after a successful commit/switch/reset HEAD@{0} shows the commit HEAD resolves to with the action kind; reset HEAD@{n} lands on the commit reflog shows at n for every n (positions >= 10 included); entries that record no commit are refused without change.",
     note="Trusted: the reflog output parser (id7, position, kind, message fields), gitfmt. Identity and time-zone variation of the log line is exercised by C12's TZ sweep, not here.",
 )
 claimed["C08"] = dict(
     category="model_checking",
-    technique="explicit-state BFS over histories (commit, switch, switch -c, earlier resets, rename) and worktree perturbations; in every state every reflog position 0..len (incl. >= 10, zero-id, out of range) x {soft, mixed, hard, default, soft+hard} plus malformed arguments is executed and judged against the reflog shown before the reset and independently decoded snapshots",
+    technique="explicit-state BFS over histories (commit, switch, switch -c, earlier resets, rename) and worktree perturbations; in every state every reflog position 0..len (incl. >= 10, zero-id, out of range) x {soft, mixed, hard, default, soft+hard} plus malformed arguments is executed and judged against the reflog shown before the reset and independently decoded snapshots; leading-zero spellings of positions, a removed two-level directory chain, a never-tracked directory standing where a tracked file was",
     text="For every reachable state and every position/mode: a valid reset moved exactly the current branch to the commit reflog displayed at that position, HEAD and other branches unchanged; --soft changed neither index nor files; --mixed/default made the index equal the target snapshot and changed no file; --hard additionally made every snapshot file exist with the committed bytes (missing directories recreated) and left never-tracked files untouched; malformed, out-of-range, two-mode and no-commit positions were refused with the disk state unchanged.",
     note="Trusted: gitfmt, reflog output parser. Files tracked before but absent from the target snapshot are left open under --hard (the statement does not say).",
 )
 claimed["C14"] = dict(
     category="model_checking",
-    technique="exhaustive enumeration of chains 1..L x 5 repository variants (clean, staged change, worktree change, other branch advanced, twin branch at the tip) x 10 values of -n, and of all forks (reset to every earlier position + 1-2 new commits); each log output compared with an independent first-parent walk",
+    technique="exhaustive enumeration of chains 1..L x 5 repository variants (clean, staged change, worktree change, other branch advanced, twin branch at the tip) x 10 values of -n, and of all forks (reset to every earlier position + 1-2 new commits); each log output compared with an independent first-parent walk; counts up to 2^63-1",
     text="For every enumerated history, variant and k, the 'commit <id>' lines of log [-n k] are exactly the first min(k, length) commits of the parent chain from HEAD's branch (default 5), each once, newest first, each with its own author and message; the listing is the same in all variants.",
     note="Trusted: gitfmt commit decoder, log output parser. Histories are linear plus resets (Goit creates no merge commits).",
 )
 claimed["C20"] = dict(
     category="model_checking",
-    technique="explicit-state BFS over local/global config writes (sections user/core, several keys, values with '=') plus an exhaustive value sweep (14 values incl. '=', '[x]', ']', '#', quotes, backslash, '%s', non-ASCII; both scopes) and all 16 (local?, global?) x (name, e-mail) combinations; every state probed with a staged file + commit",
+    technique="explicit-state BFS over local/global config writes (sections user/core, several keys, values with '=') plus an exhaustive value sweep (14 values incl. '=', '[x]', ']', '#', quotes, backslash, '%s', non-ASCII; both scopes) and all 16 (local?, global?) x (name, e-mail) combinations; every state probed with a staged file + commit; --global=false / --global=true spellings",
     text="Every config write changed exactly one (scope, section, key) of the independently parsed files and nothing else on disk; the next commit carried exactly the effective name and e-mail (local over global) unchanged; commit was refused with the disk state unchanged whenever name or e-mail was missing; malformed names (no dot, two dots, empty section or key, wrong argument count) were refused without change.",
     note="Trusted: gitfmt config parser (value = everything after the first ' = '). E-mail values are restricted to addresses Goit's commit reader accepts (C12 owns that domain).",
 )
 claimed["C18"] = dict(
     category="model_checking",
-    technique="exhaustive enumeration of the command grammar (18 sub-commands + help/completion/bare goit; every flag subset, unknown flag, missing flag value; argument lists of length 0..2 over per-command alphabets incl. ENOTDIR paths, 300-char names, regexp metacharacters, empty strings, malformed ids and positions) on every state of a corpus (9 seed states incl. unborn, emptied, renamed, odd names + all states of a bounded BFS)",
+    technique="exhaustive enumeration of the command grammar (18 sub-commands + help/completion/bare goit; every flag subset, unknown flag, missing flag value; argument lists of length 0..2 over per-command alphabets incl. ENOTDIR paths, 300-char names, regexp metacharacters, empty strings, malformed ids and positions) on every state of a corpus (9 seed states incl. unborn, emptied, renamed, odd names + all states of a bounded BFS); the everyday commands are run on every new state a successful invocation produced and must not crash",
     text="Every enumerated command line on every corpus state ended with exit status 0 or 1, without Go panic text and within the time limit; every invocation the generator marked invalid by its arguments alone that exited non-zero left the complete disk state unchanged.",
     note="Trusted: the generator's notion of 'invalid by arguments alone' (decided before the run, never from the error text). States outside the corpus and argument lists longer than 2 are not covered; no random sequences (different family).",
 )
 claimed["C01"] = dict(
     category="model_checking",
-    technique="in-module exhaustive input enumeration (every byte string of length 0..L over a 7-byte sharp alphabet x 3 kinds, boundary sizes up to 4 MiB x 4 fills, header-shaped payloads, all ordered pairs of short strings sharing a fan-out directory) against an independent SHA-1/zlib codec, plus CLI hash-object/add/cat-file on short strings and boundary sizes",
+    technique="in-module exhaustive input enumeration (every byte string of length 0..L over a 7-byte sharp alphabet x 3 kinds, boundary sizes up to 4 MiB x 4 fills, header-shaped payloads, all ordered pairs of short strings sharing a fan-out directory) against an independent SHA-1/zlib codec, plus CLI hash-object/add/cat-file on short strings and boundary sizes; CLI also with a leftover <id>.tmp of an interrupted earlier attempt, and cat-file -t/-p of trees with 150/900 entries and entry names of 250/255 bytes",
     text="For every enumerated payload and kind: the id equals SHA-1('<kind> <len>\\0'+bytes); the object file sits at the fan-out path and inflates independently to exactly header+bytes; GetObject returns the same kind, size, bytes and id; storing it again, or storing a neighbour in the same fan-out directory, leaves every earlier object decoding to its original content; hash-object prints the id and cat-file -p prints the bytes.",
     note="Trusted: the harness's own zlib+SHA-1 reader (stdlib only). Arbitrary multi-MiB byte strings are covered only as an enumerated family (sizes x fills), all strings only up to length L over the alphabet.",
 )
 claimed["C06"] = dict(
     category="model_checking",
-    technique="in-module exhaustive enumeration: every realizable subset (size <= k) of a 16-path universe ordered around '/' x every insertion order, plus DFS over update/re-update/delete histories on one live Index; independent decoder of the index file and a sorted-map model after every operation; every query name looked up on the live and the reloaded instance; CLI rm/restore/add on every small entry set",
+    technique="in-module exhaustive enumeration: every realizable subset (size <= k) of a 16-path universe ordered around '/' x every insertion order, plus DFS over update/re-update/delete histories on one live Index; independent decoder of the index file and a sorted-map model after every operation; every query name looked up on the live and the reloaded instance; CLI rm/restore/add on every small entry set; CLI: all subsets of a 6-path pool of depth-3 names x one- and two-argument rm/restore/restore --staged/add, and staging areas of 200 / 900 entries",
     text="For every enumerated entry set, order and history the index file decodes to exactly the model's entries in strictly ascending byte order without duplicates, a fresh load yields the same, and for every query name GetEntry finds it iff tracked, IsRegisteredAsDirectory holds iff some tracked path lies beneath '<name>/', GetEntriesByDirectory returns exactly those paths; rm/restore/add <name> succeed or refuse accordingly.",
     note="Trusted: the harness's index decoder and prefix predicates. Entry sets above size k and names outside the universe are not covered.",
 )
 claimed["C12"] = dict(
     category="model_checking",
-    technique="exhaustive enumeration of all 105 quarter-hour UTC offsets -12:00..+14:00: in-module (offsets x 8 instants; offsets x 8 names x 3 e-mails x 12 messages through Sign.String / NewObject / NewCommit) and CLI (commit under a generated TZif file per offset; names x messages at four offsets), read back by an independent decoder, cat-file -p and log",
+    technique="exhaustive enumeration of all 105 quarter-hour UTC offsets -12:00..+14:00: in-module (offsets x 8 instants; offsets x 8 names x 3 e-mails x 12 messages through Sign.String / NewObject / NewCommit) and CLI (commit under a generated TZif file per offset; names x messages at four offsets), read back by an independent decoder, cat-file -p and log; log read back under a different reader time zone; identity split over local and global config; a 40 KiB message and a 70000-byte line",
     text="For every enumerated offset, instant, name, e-mail and message: commit exits 0; the stored author and committer lines equal 'Name <email> <secs> +HHMM|-HHMM' with HH:MM the magnitude of the offset; NewCommit / cat-file -p / log give back the same name, e-mail, instant, offset and message text.",
     note="Trusted: gitfmt, the log parser, the TZif generator (checked by the stored offset itself). Names, e-mails and messages outside the enumerated families are not covered.",
 )
 claimed["C19"] = dict(
     category="model_checking",
-    technique="exhaustive single-edit neighbourhood of every file Goit wrote in a corpus repository (every truncation, single-byte deletion, single-byte substitution; object files raw and at the level of their inflated content, re-deflated), every ordered swap of two object files, and all token strings up to length n for each text decoder; after each mutant every exported loader is called in-module under a panic guard, a 20 s watchdog and an address-space limit; read-only CLI commands on every truncation",
+    technique="exhaustive single-edit neighbourhood of every file Goit wrote in a corpus repository (every truncation, single-byte deletion, single-byte substitution; object files raw and at the level of their inflated content, re-deflated), every ordered swap of two object files, and all token strings up to length n for each text decoder; after each mutant every exported loader is called in-module under a panic guard, a 20 s watchdog and an address-space limit; read-only CLI commands on every truncation; CLI: cat-file -t/-p of every object after every ordered swap of two object files and after every truncation of its file, success only with the original kind/bytes",
     text="For every enumerated mutant no loader panicked, hung or exhausted memory, no command exited with a status other than 0 or 1, and GetObject never returned err == nil with a kind or content different from the object of the requested id (damaged, truncated, bit-flipped or swapped files are reported as errors).",
     note="Trusted: the harness's guards. 'Arbitrary byte strings (coverage-guided)' is outside this family: bytes far from any valid file and outside the token grammars are not covered.",
 )
 claimed["C15"] = dict(
     category="fault_enumeration",
-    technique="exhaustive crash-point enumeration: for every transition of a bounded BFS corpus (one representative of each modifying command, six seed states) the operation trace is recorded through an import-swap file-system seam and the command is re-run once per modifying operation (create/truncate, write, mkdir, rename, remove) with a kill immediately before it; every post-crash disk is judged by a recovery suite",
+    technique="exhaustive crash-point enumeration: for every transition of a bounded BFS corpus (one representative of each modifying command, six seed states) the operation trace is recorded through an import-swap file-system seam and the command is re-run once per modifying operation (create/truncate, write, mkdir, rename, remove) with a kill immediately before it; every post-crash disk is judged by a recovery suite; after every crash the next command (the same command again; with leftover temp files also switch, switch -c, add ., commit) is run and judged by the same invariants; corpus includes a 253-byte branch name, a 6 KB config key and a staging area above 64 KiB",
     text="For every crash point of every corpus transition the post-crash repository still loads (ls-files exits 0; every read-only command that worked before and after the uninterrupted command still works, none panics), passes the independent fsck, keeps every previously intact object intact, and every branch names either its old commit or the commit of the uninterrupted run; an interrupted init leaves either a loadable repository or a directory where init can be run again.",
     note="Crash model: process killed, kernel survives (post-crash disk = prefix of the modification sequence); power-loss reordering of unsynced pages is outside the statement and not modelled. Deviation bound 1 (one kill per execution), complete within the corpus; no randomly generated states (different family). Trusted: the seam (checked against the plain build), gitfmt.",
 )
 claimed["C16"] = dict(
     category="fault_enumeration",
-    technique="exhaustive single-fault enumeration: for every transition of the same corpus, every operation point of kind create/open/read/readdir/write/mkdir/rename/remove (incl. those of start-up loading) x errno class (EIO; thorough adds ENOSPC, EACCES) fails once without touching the disk; each run is compared with the fault-free run; directory walks of path/filepath are routed through the seam as well",
+    technique="exhaustive single-fault enumeration: for every transition of the same corpus, every operation point of kind create/open/read/readdir/write/mkdir/rename/remove (incl. those of start-up loading) x errno class (EIO; thorough adds ENOSPC, EACCES) fails once without touching the disk; each run is compared with the fault-free run; directory walks of path/filepath are routed through the seam as well; after every reported failure that changed the disk the next command is run and judged by the connectivity invariant; corpus includes a staging area above 64 KiB and a 6 KB config key",
     text="For every single-fault position of every corpus transition the command either produced exactly the fault-free exit status, output and disk state, or exited non-zero without crashing; it never reported success with a different state; afterwards the repository passed the independent fsck, previously intact objects were intact, and a branch that moved named exactly the fault-free tip.",
     note="Faults at operation granularity (a write either completes or fails; no short writes); stat calls excluded as the statement says. Deviation bound 1. Trusted: the seam, gitfmt.",
 )
